@@ -237,8 +237,31 @@ def replay(iset, memarch, nregions, inputs, ob):
         from spec import encodings as ENC0
         want0 = 'arm' if iset == 'arm' else ('t16' if iset == 'thumb16' else 't32')
         xrows = [r for r in ENC0.rows_for(type(eo).__name__) if r.iset == want0 and r.match(inputs['instr']) and getattr(r, 'exc', None) is not None]
+    mrows = []
+    if kind == 'post' and eo is not None and isinstance(exc, NotImplementedError):
+        from spec import encodings as ENC1
+        want1 = 'arm' if iset == 'arm' else ('t16' if iset == 'thumb16' else 't32')
+        mrows = [r for r in ENC1.rows_for(type(eo).__name__) if r.iset == want1 and r.match(inputs['instr']) and getattr(r, 'mock', False)]
     if kind in ('safe.host', 'safe.escape'):
         bad = exc is not None and not isinstance(exc, NotImplementedError)
+    elif mrows:
+        # a hint stopped at its mock hook: the condition passed and nothing has changed by then
+        from spec.cpu import Cpu
+        from spec import psr as PSR
+        r = mrows[0]
+        oplen = 16 if iset == 'thumb16' else 32
+        st0 = dict(init)
+        cfgs = registry.mods().configurations.configurations.configs
+        for k in MC.CFG_BOOL + list(MC.CFG_INT):
+            st0['cfg.' + k] = cfgs.get(k)
+        base = Cpu(dict(st0), 'arm' if iset == 'arm' else 'thumb', inputs['instr'], oplen)
+        f_ = r.extract(inputs['instr'])
+        u_enc = bool(r.sbz_violated(inputs['instr'])) or bool(r.unpred(f_, base) if r.unpred is not None else False)
+        passed, cu = (True, False) if getattr(r, 'unconditional', False) else PSR.condition_passed('arm' if iset == 'arm' else 'thumb', inputs['instr'], oplen, init['cpsr'])
+        diff = {k: (_h(init[k]), _h(final[k])) for k in final if k not in STEP.SCRATCH and final[k] != init[k]}
+        lines.append('stopped at the mock hook of a hint: condition passed=%s ; leaves changed before the hook: %s%s' % (
+            bool(passed), diff, ' ; UNPREDICTABLE encoding: not compared' if (u_enc or cu) else ''))
+        bad = not (u_enc or cu) and (bool(diff) or not passed or bool(sc.writes))
     elif xrows:
         # exception-generating instruction (SVC, SMC): which exception, and the architectural entry from the initial state
         from spec.cpu import Cpu
